@@ -191,6 +191,10 @@ let s_run (epoll : bool) (ops : string list) : string * bool * int =
   let trs = ref [] in
   let big = ref false and fired = ref 0 in
   let yes = List.init 200 (fun _ -> { acts = []; sret = true }) in
+  (* harness labels are given when the op is issued; the model's serial when the registration really happens *)
+  let labels = Hashtbl.create 16 and next_label = ref 0 in
+  let pend_loop = ref [] and pend_desc = ref [] in
+  let fresh () = let l = !next_label in incr next_label; l in
   List.iter (fun o ->
     if o <> "" then begin
       let rest = String.sub o 1 (String.length o - 1) in
@@ -202,16 +206,31 @@ let s_run (epoll : bool) (ops : string list) : string * bool * int =
              let count = match more with [k] -> ios k | _ -> 1 in
              let iv = if o.[0] = 'm' then ms_to_us v else v in
              (if int_of_n (fst (N.div_eucl iv (n_of_int 1000000))) > 4294 then big := true);
-             for _ = 1 to count do st := do_reg t_alloc !st (rep = "1") iv N0 done
+             for _ = 1 to count do
+               Hashtbl.replace labels (int_of_n !st.nser) (fresh ());
+               st := do_reg t_alloc !st (rep = "1") iv N0 done
            | _ -> failwith "bad reg")
+       | 'L' | 'D' -> (match String.split_on_char ',' rest with
+           | [rep; v] ->
+             let r = (((rep = "1"), n_of_string v), N0) in
+             let l = fresh () in
+             if o.[0] = 'L' then pend_loop := !pend_loop @ [(r, l)] else pend_desc := !pend_desc @ [(r, l)]
+           | _ -> failwith "bad deferred reg")
        | 'a' -> st := do_advance !st (n_of_string rest)
        | 'x' | 'y' ->
          let b = if o.[0] = 'x' then N0 else n_of_string rest in
-         (match poll_once t_alloc t_pick epoll !st b yes yes with Some s' -> st := s' | None -> failwith "oof")
+         let base = int_of_n !st.nser in
+         List.iteri (fun i (_, l) -> Hashtbl.replace labels (base + i) l) !pend_loop;
+         List.iteri (fun j (_, l) -> Hashtbl.replace labels (base + List.length !pend_loop + j) l) !pend_desc;
+         (match runonce t_alloc t_pick epoll !st b (List.map fst !pend_loop) (List.map fst !pend_desc) yes yes with
+          | Some s' -> st := s' | None -> failwith "oof");
+         pend_loop := []; pend_desc := []
        | _ -> failwith "bad op");
       let newl = List.rev (t_take_new !st.log (List.length !st.log - before)) in
       let fs = List.filter_map (fun e -> match e with
-          | LFire (ev, now) -> incr fired; Some ("F" ^ string_of_n ev.eser ^ "@" ^ string_of_n now) | _ -> None) newl in
+          | LFire (ev, now) -> incr fired;
+            let l = try Hashtbl.find labels (int_of_n ev.eser) with Not_found -> -1 in
+            Some ("F" ^ string_of_int l ^ "@" ^ string_of_n now) | _ -> None) newl in
       trs := String.concat "," fs :: !trs
     end) ops;
   (String.concat "/" (List.rev !trs), !big, !fired)
@@ -221,11 +240,17 @@ let s_handle (p : string) : string =
   let (te, big, fired) = s_run true ops in
   let (ts, _, _) = s_run false ops in
   let sleeps = List.exists (fun o -> o <> "" && o.[0] = 'y') ops in
+  let comp = List.exists (fun o -> o <> "" && (o.[0] = 'L' || o.[0] = 'D')) ops in
   Printf.sprintf "se=%s;ss=%s;early=0;class=S:%s%s%s%s%s" te ts (if big then "over32bit-us" else "small")
-    (if fired > 0 then "+fire" else "") (if fired > 32 then "+many" else "") (if sleeps then "+sleep" else "")
+    (if fired > 0 then "+fire" else "") (if fired > 32 then "+many" else "") ((if sleeps then "+sleep" else "") ^ (if comp then "+callbacks" else ""))
     (if te <> ts then "+ms-truncation" else "")
+(* constants query: the regenerated Gen.v values against what the linked code uses *)
+let k_handle () : string =
+  Printf.sprintf "consts=%s.%s.%s.%s.%s;class=K:consts" (string_of_n eP_MAX_EVENTS) (string_of_n eP_READ_FLAGS)
+    (string_of_n eP_MAX_FREE_DESCRIPTORS) (string_of_n pOLL_INTERVAL_SECOND) (string_of_n pOLL_INTERVAL_USECOND)
 let handle (p : string) : string =
-  if String.length p >= 2 && p.[0] = 'T' then t_handle p
+  if p = "K" then k_handle ()
+  else if String.length p >= 2 && p.[0] = 'T' then t_handle p
   else if String.length p >= 2 && p.[0] = 'S' then s_handle p
   else if String.length p >= 2 && p.[0] = 'P' then p_handle p
   else "bad-payload"
